@@ -262,8 +262,14 @@ func checkC11(r *Run) {
 	shiftSpace(r, skipQuotedDrv, "skipquoted", sub(skipQuotedSpaces(r)), plain, every)
 	// relocation of parsed URIs: moved to offset k (span = URI length) every component denotes the same text
 	fam := c15Family(r.pick(300, 1500))
-	parallelFor(r, len(fam), func(c *enumCtx, i int) {
-		s := []byte(fam[i].String())
+	telURIs := []string{"tel:123", "tel:+1-555-0100;phone-context=x.example", "tel:7042;a=b?h=1", "TEL:9"}
+	parallelFor(r, len(fam)+len(telURIs), func(c *enumCtx, i int) {
+		var s []byte
+		if i < len(fam) {
+			s = []byte(fam[i].String())
+		} else {
+			s = []byte(telURIs[i-len(fam)])
+		}
 		ks := c11Offsets(len(s))
 		if !r.quick() && i%40 == 0 {
 			ks = nil
